@@ -16,7 +16,8 @@ def tasks(tier, seed):
     if tier == "thorough":
         alphabet = ["drop", "answer", "short_garbage", "exception", "two_fragments", "peer_closes", "send_error", "duplicate",
                     "lone_fragment"]
-        return H.make_tasks(PROP, cfgs, alphabet, PLANS_THOROUGH)
+        light = ["drop", "answer", "exception", "peer_closes", "send_error", "lone_fragment"]
+        return H.make_tasks(PROP, cfgs, alphabet, PLANS_QUICK[:1]) + H.make_tasks(PROP, cfgs, light, PLANS_THOROUGH[1:])
     alphabet = ["drop", "answer", "short_garbage", "exception", "peer_closes", "send_error"]
     ts = H.make_tasks(PROP, cfgs, alphabet, PLANS_QUICK[:1])
     light = ["drop", "answer", "exception", "peer_closes", "send_error"]
